@@ -15,7 +15,8 @@ RULE = ("directory trees with top-level PELs (BMC-style and free names), an arch
         "sha1) is taken and diffed, and a sys.addaudithook event log (os.remove/rename/rmdir/mkdir/shutil.*, open for "
         "writing, with repository call site) is checked: -d E removes at most one top-level file whose name contains the "
         "normalised id; -D removes exactly the top-level regular files; -j creates only <name>.<entry id>.json in the chosen "
-        "output directory; every other mode changes nothing.  Non-trivial: tree has nested PELs or the mode mutates.")
+        "output directory; every other mode changes nothing; -d with pattern-like ids or leniently spelled ids of existing files "
+        "removes nothing.  Non-trivial: tree has nested PELs or the mode mutates.")
 ASSUMPTIONS = ["no symlinks", "--clean is the subject of C12 and not used here",
                "the audit hook records Python-level file-system events only (strace is used in C12)"]
 
